@@ -30,15 +30,26 @@ import (
 // a non-ASCII / invalid UTF-8 / CR payload), so that blobs of equal size can be made dissimilar.
 type blobDesc struct {
 	fam, nlines, width, variant, period, bin, tail, fill int
+	segs                                                []int // see padding.go; nil = the line-based description above
 }
 
 func (b blobDesc) sx() Sx {
+	if b.segs != nil {
+		return Ints(append([]int{-1}, b.segs...))
+	}
 	return L(I(b.fam), I(b.nlines), I(b.width), I(b.variant), I(b.period), I(b.bin), I(b.tail), I(b.fill))
 }
 
 func parseDesc(s Sx) blobDesc {
 	v := s.List
-	d := blobDesc{v[0].Int(), v[1].Int(), v[2].Int(), v[3].Int(), v[4].Int(), v[5].Int(), v[6].Int(), 0}
+	if len(v) > 0 && v[0].Int() == -1 {
+		d := blobDesc{segs: []int{}}
+		for _, x := range v[1:] {
+			d.segs = append(d.segs, x.Int())
+		}
+		return d
+	}
+	d := blobDesc{fam: v[0].Int(), nlines: v[1].Int(), width: v[2].Int(), variant: v[3].Int(), period: v[4].Int(), bin: v[5].Int(), tail: v[6].Int()}
 	if len(v) > 7 {
 		d.fill = v[7].Int()
 	}
@@ -46,6 +57,9 @@ func parseDesc(s Sx) blobDesc {
 }
 
 func (b blobDesc) data() []byte {
+	if b.segs != nil {
+		return segData(b.segs)
+	}
 	var sb strings.Builder
 	if b.bin != 0 {
 		sb.WriteByte(0)
@@ -153,6 +167,11 @@ type tcase struct {
 	changes []change
 	calFrac float64    // > 0: Consume is first run without a timeout and timed; the timeout becomes this fraction of that time
 	szq     [][2]int64 // pairs of sizes put to the real sizesAreClose (also outside what Consume can reach: 0, 1, < 32, > 2^32)
+	// re-use of the RenameAnalysis instance: before the observed Consume the SAME instance consumes 1 = the reversed
+	// change set (additions <-> deletions), 2 = the same change set (copies of the change objects), 3 = a malformed set
+	// (Consume returns an error) and then the reversed one; 4..6 = the same after a second Configure + Initialize.
+	// The model knows nothing of it: the observed call must behave like the call on a fresh instance.
+	warm int
 }
 
 // the two trees of the diff: every From entry points to treeFrom, every To entry to treeTo (Consume never looks at
@@ -259,13 +278,20 @@ func run(tc *tcase) Sx {
 					ba := blobIdx[tc.blobs[a.to].hash]
 					if !seenB[[2]int{bd, ba}] {
 						seenB[[2]int{bd, ba}] = true
-						x, e1 := ra.VerifC13BlobsAreClose(cached[bd], cached[ba])
-						y, e2 := ra.VerifC13BlobsAreClose(cached[ba], cached[bd])
-						if e1 != nil || e2 != nil {
-							closeTab = append(closeTab, L(I(bd), I(ba), A("err"), A("err")))
-						} else {
-							closeTab = append(closeTab, L(I(bd), I(ba), B(x), B(y)))
+						// a panic of the direct call is recorded, not fatal: whether Consume survives the pair is what the
+						// supervised run below shows
+						ask := func(p, q *api.CachedBlob) Sx {
+							var x bool
+							var e error
+							if _, pn := Catch(func() { x, e = ra.VerifC13BlobsAreClose(p, q) }); pn {
+								return A("panic")
+							}
+							if e != nil {
+								return A("err")
+							}
+							return B(x)
 						}
+						closeTab = append(closeTab, L(I(bd), I(ba), ask(cached[bd], cached[ba]), ask(cached[ba], cached[bd])))
 					}
 					if !seenN[[2]int{d.name, a.name}] {
 						seenN[[2]int{d.name, a.name}] = true
@@ -337,6 +363,11 @@ func run(tc *tcase) Sx {
 			tc.timeout++
 		}
 		ra.Timeout = time.Duration(tc.timeout)
+	}
+
+	// ----- re-use of the instance (see tcase.warm) -----
+	if tc.warm > 0 {
+		warmUp(tc, ra, changes, cache)
 	}
 
 	// ----- the run itself, under the requested scheduling perturbation -----
@@ -414,16 +445,16 @@ func changesField(n int) string {
 
 var kindTime = map[string]time.Duration{}
 
+// emit queues the case for a supervised child (supervise.go); the child calls emitNow.
 func emit(c *Config, tc *tcase) {
-	t0 := time.Now()
-	defer func() {
-		k := strings.TrimRight(tc.kind, "0123456789")
-		if len(tc.changes) > 20000 {
-			k = fmt.Sprintf("%s-%d-changes-case-%d", tc.kind, len(tc.changes), c.N)
-		}
-		kindTime[k] += time.Since(t0)
-	}()
-	obs := run(tc)
+	if isChild {
+		emitNow(c, tc)
+		return
+	}
+	enqueue(c, tc)
+}
+
+func caseFields(tc *tcase) []Sx {
 	na, nd := 0, 0
 	for _, ch := range tc.changes {
 		if ch.kind == "a" {
@@ -445,13 +476,36 @@ func emit(c *Config, tc *tcase) {
 	for i, q := range tc.szq {
 		sq[i] = L(I64(q[0]), I64(q[1]))
 	}
-	c.Emit(T("kind", A(tc.kind)), T("nt", B(na >= 1 && nd >= 1)), T("thr", I(tc.thr)), T("timeout", I64(tc.timeout)),
-		T("procs", I(tc.procs)), T("spin", I(tc.spin)), T("blobs", bl...), T("szq", sq...), T(changesField(len(cs)), cs...), obs)
+	return []Sx{T("kind", A(tc.kind)), T("nt", B(na >= 1 && nd >= 1)), T("thr", I(tc.thr)), T("timeout", I64(tc.timeout)),
+		T("procs", I(tc.procs)), T("spin", I(tc.spin)), T("warm", I(tc.warm)), T("blobs", bl...), T("szq", sq...), T(changesField(len(cs)), cs...)}
+}
+
+func emitNow(c *Config, tc *tcase) {
+	t0 := time.Now()
+	defer func() {
+		k := strings.TrimRight(tc.kind, "0123456789")
+		if len(tc.changes) > 20000 {
+			k = fmt.Sprintf("%s-%d-changes-case-%d", tc.kind, len(tc.changes), c.N)
+		}
+		kindTime[k] += time.Since(t0)
+	}()
+	obs := run(tc)
+	writeResult(c, append(caseFields(tc), obs))
 }
 
 func replayCase(s Sx) *tcase {
 	tc := &tcase{kind: "replay", procs: 1}
 	get := func(tag string) Sx { f, _ := s.Field(tag); return f }
+	if f, ok := s.Field("kind"); ok && isChild {
+		tc.kind = f.Args()[0].Atom
+	}
+	if f, ok := s.Field("warm"); ok {
+		tc.warm = f.Args()[0].Int()
+	}
+	if f, ok := s.Field("calppm"); ok {
+		// only between the supervisor and its child: the timeout is still to be calibrated (midrun)
+		tc.calFrac = float64(f.Args()[0].Int()) / 1e6
+	}
 	if f, ok := s.Field("thr"); ok {
 		tc.thr = f.Args()[0].Int()
 	}
@@ -515,6 +569,17 @@ func patternHashes(c *Config, k int) []plumbing.Hash {
 	vals := []byte{0, 1, 2, 127, 128, 254, 255}
 	hs := make([]plumbing.Hash, 0, k)
 	seen := map[plumbing.Hash]bool{}
+	// the ends of the domain: the all-zero hash (go-git's "no object") and the all-ones hash as hashes of real blobs
+	if r.Intn(8) == 0 {
+		hs, seen[plumbing.ZeroHash] = append(hs, plumbing.ZeroHash), true
+	}
+	if r.Intn(8) == 0 && len(hs) < k {
+		var ff plumbing.Hash
+		for i := range ff {
+			ff[i] = 255
+		}
+		hs, seen[ff] = append(hs, ff), true
+	}
 	for len(hs) < k {
 		h := base
 		for _, p := range pos {
@@ -1336,6 +1401,7 @@ func scaleFamily(c *Config) {
 func main() {
 	c := Setup()
 	defer c.Close()
+	defer flushPending(c)
 	if f := os.Getenv("C13_TIMING"); f != "" {
 		// development aid: cumulated wall time per generator family
 		defer func() {
@@ -1353,6 +1419,13 @@ func main() {
 	if c.Replay != "" {
 		for _, cs := range c.ReplayCases() {
 			emit(c, replayCase(cs))
+		}
+		return
+	}
+	if os.Getenv("C13_ONLY") == "padding" {
+		// development aid: the padding family alone
+		for i := c.Count(800, 25000); i > 0; i-- {
+			emit(c, padding(c))
 		}
 		return
 	}
@@ -1379,19 +1452,35 @@ func main() {
 		emit(c, hashpat(c, 40, false))
 	}
 	for i := c.Count(700, 20000); i > 0; i-- {
-		emit(c, hashpat(c, 40, true))
+		tc := hashpat(c, 40, true)
+		tc.warm = pickWarm(c)
+		emit(c, tc)
 	}
 	for i := c.Count(200, 5000); i > 0; i-- {
 		emit(c, hashpat(c, 200, false))
 	}
 	for i := c.Count(1200, 30000); i > 0; i-- {
-		emit(c, modeCase(c))
+		tc := modeCase(c)
+		tc.warm = pickWarm(c)
+		emit(c, tc)
 	}
 	for i := c.Count(1500, 40000); i > 0; i-- {
-		emit(c, sim(c, 24, "sim"))
+		tc := sim(c, 24, "sim")
+		tc.warm = pickWarm(c)
+		emit(c, tc)
 	}
 	for i := c.Count(600, 15000); i > 0; i-- {
-		emit(c, sim(c, 60, "timeout"))
+		tc := sim(c, 60, "timeout")
+		tc.warm = pickWarm(c)
+		emit(c, tc)
+	}
+	// binary and text blobs with long repetitive regions, chunks removed / inserted, both directions
+	for i := c.Count(800, 25000); i > 0; i-- {
+		tc := padding(c)
+		if i%4 == 0 {
+			tc.warm = pickWarm(c)
+		}
+		emit(c, tc)
 	}
 	for i := c.Count(120, 4000); i > 0; i-- {
 		emit(c, midrun(c))
@@ -1400,7 +1489,9 @@ func main() {
 		emit(c, thresh(c))
 	}
 	for i := c.Count(300, 6000); i > 0; i-- {
-		emit(c, weird(c))
+		tc := weird(c)
+		tc.warm = pickWarm(c)
+		emit(c, tc)
 	}
 	for i := c.Count(150, 3000); i > 0; i-- {
 		emit(c, capCase(c))
